@@ -8,7 +8,7 @@
    the remaining operations are tied by the correspondence run (three-way with std::vec::Vec) only. *)
 From Coq Require Import ZArith List Bool Lia Permutation.
 From MV Require Import Ast Eval Scalar Machine Model Policy.
-From MV.Proofs Require Import Arith Logic Prim View OpsLocal Guards Grow CapHistory Drops DrainIt Core Refine Clone Append SplitOff Extend CloneSlice RetainSpec RetainAbs History DrainAbs.
+From MV.Proofs Require Import Arith Logic Prim View OpsLocal Guards Grow CapHistory Drops DrainIt Core Refine Clone Append SplitOff Extend CloneSlice RetainSpec RetainAbs History DrainAbs Resize.
 Import ListNotations.
 Open Scope Z_scope.
 
@@ -317,3 +317,31 @@ Theorem C01_drain_is_the_list_drain :
   post (drain_whole cfg ncap v bs be steps tmp s) (fun r s' => r = fst (cursor w steps) /\ Q s') Q.
 Proof. exact drain_abs. Qed.
 Print Assumptions C01_drain_is_the_list_drain.
+
+(* resize(new_len, value) against the list model: shorter => the prefix, the cut elements destroyed;
+   longer => the old contents followed by new_len - len NEW elements with value's payload; in every case
+   the by-value argument is destroyed exactly once at the end, also when the call unwinds (the panic
+   post-condition: the vector is the prefix, or the old contents plus the clones made so far).
+   (The count is at most 10^6 here: the machine's loop bound, far above what the correspondence runs.) *)
+Theorem C01_resize_is_the_list_resize :
+  forall cfg ncap, cfg_ok cfg -> policy_ok ncap -> needs_drop cfg = true ->
+  forall s v l value n,
+  vabs cfg s v l -> ledger s value = Live -> value < next_elem s -> ~ In value l ->
+  mem value (clone_panics s) = false ->
+  0 <= n -> n - Z.of_nat (List.length l) <= 1000000 ->
+  let L := Z.of_nat (List.length l) in
+  post (resize cfg ncap v n value s)
+    (fun _ s' =>
+       ledger s' value = Dropped /\
+       if n <=? L
+       then vabs cfg s' v (firstn (Z.to_nat n) l) /\
+            (forall e, In e (skipn (Z.to_nat n) l) -> ledger s' e = Dropped) /\ next_elem s' = next_elem s
+       else vabs cfg s' v (l ++ zseq (next_elem s) (Z.to_nat (n - L))) /\
+            next_elem s' = next_elem s + (n - L) /\
+            (forall j, (j < Z.to_nat (n - L))%nat -> payload s' (next_elem s + Z.of_nat j) = payload s value) /\
+            (forall e, In e l -> ledger s' e = ledger s e))
+    (fun s' => exists l', vabs cfg s' v l' /\
+                          (l' = firstn (Z.to_nat n) l \/
+                           exists k, (k <= Z.to_nat (n - L))%nat /\ l' = l ++ zseq (next_elem s) k)).
+Proof. exact resize_abs. Qed.
+Print Assumptions C01_resize_is_the_list_resize.
